@@ -119,7 +119,11 @@ CHECKS = {
         'abstract group Section with the group laws as visible premises; concrete theorems without premises: lib_child_private_is_ckd, lib_is_spec, '
         'hardened_from_public_fails, path_markers, ckd_metadata, master_range, wif_is_serialization; guards/thresholds/markers are re-read from the source '
         'AST each run (source_is_model). Tie: seeds 16..64 bytes, paths to depth 10 with boundary indices and every marker spelling, every '
-        'private/public split, against an independent pure-Python BIP32 oracle and the extracted model.',
+        'private/public split, against an independent pure-Python BIP32 oracle and the extracted model.'
+        ' Derivation SESSIONS on one HDKey object and the objects derived from it (public copy, children): derivation_session_is_function, derivation_session_repeatable, '
+        'public_object_calls, public_copy_never_private (whatever was called before, nothing obtained from a public-only object is private and a hardened request fails), '
+        'source_is_stateless (re-read from /repo each run: the derivation methods write nothing on self, public() is a deepcopy that clears the private fields), '
+        'wif_child_index_is_serialization. Tie: sess requests with every start form, spelling and export between derivations, compared step by step.',
    design_ref='DESIGN.md section 6 C03, section 9',
    note='The executable secp256k1 instance is NOT proved to satisfy the group laws and primality of n is not proved (no EC/primality library installed): the '
         'commutation theorems carry group_laws as a premise. Hash transcriptions are validated against hashlib, not proved. Closed under the global context. '
@@ -178,7 +182,11 @@ CHECKS = {
         'symbolic account/change/index), paths_injective, lib_derivation_is_bip32, key_material_is_derivation and no_repeats for EVERY reachable state '
         '(induction over operation lists), restore_deterministic, reopen_changes_nothing. Tie: every key a real wallet hands out is recomputed from the '
         'seed alone by the extracted model (own HMAC/curve/hash/address code) over histories with reopen and restores from seed, mnemonic, xprv and '
-        'account xpub, on all networks and witness types; independent Python BIP32/address oracle.',
+        'account xpub, on all networks and witness types; independent Python BIP32/address oracle.'
+        ' Index issuance: next_index_is_highest_plus_one, next_index_ignores_creation_order, no_two_siblings_share_an_index; listings: listing_is_exactly_the_filter; '
+        'mnemonic creation: mnemonic_wallet_is_wallet_of_bip39_seed (sentence + passphrase), mnemonic_restore_reproduces_addresses; frozen tables: '
+        'network_tables_are_the_documented_ones, structure_table_is_the_documented_one. Tie: the wallet key table is snapshotted and checked after EVERY command '
+        '(out-of-order key_for_path, bulk creation, scan, reopen), creation/restoration matrix incl. mnemonic + password in nine languages, multisig cosigner wallets probed by the oracle.',
    design_ref='DESIGN.md section 6 C09, section 9',
    note='Density of indices over implicit-only histories and watch-only/full agreement of public keys (needs ckd_commute, C03) are checked by the oracle, not '
         'proved. Multisig key books are C10. Two defects repaired by fix: commits. Closed under the global context.',
@@ -250,10 +258,14 @@ CHECKS = {
         'cosigner_order_agreement, m_signers_suffice (object hand-off: valid exactly when >= m distinct cosigners signed, any order, repeats allowed), '
         'signature_count_is_distinct_cosigners; refutation witnesses for the raw and dict channels. Tie: REAL cosigner wallets (one sqlite file each) are created '
         'from permuted keys, transactions are signed through chains of export/import, and addresses, redeem scripts, signature placement, verified/pushed are '
-        'compared with the extracted model after every step.',
+        'compared with the extracted model after every step.'
+        ' Committed fields through hand-off: lib_create_fields (anti-fee-sniping locktime, RBF / locktime sequence rule, change), handoff_preserves_committed_fields, '
+        'dict_handoff_fields / raw_handoff_fields (after fixes C10-3/4 every channel preserves every committed field), create_signals_rbf, create_locktime_enforced, '
+        'm_signers_suffice_committed, tx_verifies_iff_every_input, input_verifies_iff_m_signers. Tie: cer2 ceremonies with non-default spends (RBF, locktimes, fees, 1-3 inputs and '
+        'outputs, change), watch-only key signing; after every step an independent parser + sighash + ECDSA + CHECKMULTISIG oracle re-checks the fields and the verdict.',
    design_ref='DESIGN.md section 6 C10, section 9',
    note='Closed under the global context. ECDSA validity is abstracted (a signature is valid for exactly its signer: C13); the raw and dict hand-off channels lose or '
-        'misplace signatures (two known findings with Coq refutations); two defects repaired by fix: commits. Wallet database behaviour is reached through the '
+        'misplace signatures (two known findings with Coq refutations); four defects repaired by fix: commits. Wallet database behaviour is reached through the '
         'ceremony differential only.',
    technique='Coq proof (permutation/sorting lemmas, induction over signing-operation lists) + ceremony differential against real cosigner wallets'),
  'C12': dict(
